@@ -43,7 +43,7 @@ def indep_parse(sp, data):
     return ("Match", [int(g) for g in mo.groups()])
 
 
-def make_adapter(specs, log):
+def make_adapter(specs, log, split=None):
     from tickit.adapters.specifications import RegexCommand
     from tickit.adapters.tcp import CommandAdapter
     from tickit.utils.byte_format import ByteFormat
@@ -79,7 +79,17 @@ def make_adapter(specs, log):
         m.__annotations__ = {f"a{k}": int for k in range(ngroups)}
         m.__name__ = sp["name"]
         ns[sp["name"]] = RegexCommand(sp["regex"], sp["interrupt"], sp["fmt"])(m)
-    return type("GenAdapter", (CommandAdapter,), ns)()
+    if split is None or not 0 < split < len(specs):
+        return type("GenAdapter", (CommandAdapter,), ns)()
+    # the commands are spread over a class and a subclass, and an instance of the parent class has already handled a
+    # message when the adapter under test (an instance of the subclass) is created
+    names = [sp["name"] for sp in specs]
+    parent_cls = type("GenParent", (CommandAdapter,), {k: v for k, v in ns.items() if k not in names[split:]})
+    child_cls = type("GenChild", (parent_cls,), {k: v for k, v in ns.items() if k in names[split:]})
+    parent = parent_cls()
+    asyncio.run(parent.handle(b"\x00warm-up\x00"))
+    log.clear()
+    return child_cls()
 
 
 def gen_specs(rng):
@@ -143,11 +153,11 @@ class FakeReader:
         return self.chunks.pop(0) if self.chunks else b""
 
 
-def run_connection(specs, chunks, on_connect=(), slow_interrupt=0):
+def run_connection(specs, chunks, on_connect=(), slow_interrupt=0, split=None):
     from tickit.adapters.io.tcp_io import TcpIo
 
     log = []
-    adapter = make_adapter(specs, log)
+    adapter = make_adapter(specs, log, split)
     if on_connect:
         async def onc():
             for r in on_connect:
@@ -469,8 +479,9 @@ def main(tier, seed):
             chunks = [rng.choice(derived + msgs[:300]) for _ in range(rng.randint(2, 8))]
             onc = [rng.choice([None, 90, 91]) for _ in range(rng.randint(0, 2))]
             slow = rng.choice([0, 0, 15])
-            log, raised = run_connection(specs, chunks, onc, slow_interrupt=slow)
-            cases.append(dict(specs=specs, chunks=chunks, on_connect=onc, log=log, raised=raised, slow=slow))
+            split = rng.choice([None, None] + list(range(1, len(specs))))
+            log, raised = run_connection(specs, chunks, onc, slow_interrupt=slow, split=split)
+            cases.append(dict(specs=specs, chunks=chunks, on_connect=onc, log=log, raised=raised, slow=slow, split=split))
     for c in cases:
         terms.append(render(c["specs"], c["on_connect"], c["chunks"], c["log"], c["raised"]))
     bad = run_shards(PID, HEADER, "cmd_case", "check_cmd", terms, shard_size=700)
@@ -486,7 +497,8 @@ def main(tier, seed):
     ck.rule = ("generated command sets (1-5 commands from a pool of text/bytes patterns with utf-8 / ascii / latin-1 decoding, "
                "interrupting or not, single or streamed replies with empty markers) driven through the real TCP handler: every byte "
                "string of length <= 1 and a grid of length-2 strings per set, pattern-derived messages (exact, truncated, over-long, "
-               "padded, doubled, invalid UTF-8 injected) and chunk sequences with on_connect replies; non-trivial = some command "
+               "padded, doubled, invalid UTF-8 injected) and chunk sequences with on_connect replies, the commands optionally spread "
+               "over an adapter class and a subclass of which the parent has already been used; non-trivial = some command "
                "matches or fails to decode the message")
     ck.coverage.update(command_sets=nsets, messages=sum(len(c["chunks"]) for c in cases), parse_outcomes=kinds,
                        disagreements=len(bad), exhaustive=True)
@@ -504,7 +516,8 @@ def main(tier, seed):
                       dict(kind="tcp", specs=[dict(sp, regex=(sp["regex"] if isinstance(sp["regex"], str) else "bytes:" + sp["regex"].hex()))
                                               for sp in c["specs"]],
                            chunks=[m.hex() for m in c["chunks"]], on_connect=c["on_connect"],
-                           events=[list(map(str, e)) for e in c["log"]], raised=c["raised"], slow=c.get("slow", 0), codes=bad[i]))
+                           events=[list(map(str, e)) for e in c["log"]], raised=c["raised"], slow=c.get("slow", 0), split=c.get("split"),
+                           codes=bad[i]))
     return ck.finish()
 
 
@@ -523,7 +536,7 @@ def replay(rp):
         return 1
     specs = [dict(sp, regex=(bytes.fromhex(sp["regex"][6:]) if sp["regex"].startswith("bytes:") else sp["regex"])) for sp in rp["specs"]]
     chunks = [bytes.fromhex(h) for h in rp["chunks"]]
-    log, raised = run_connection(specs, chunks, rp["on_connect"], slow_interrupt=rp.get("slow", 0))
+    log, raised = run_connection(specs, chunks, rp["on_connect"], slow_interrupt=rp.get("slow", 0), split=rp.get("split"))
     bad = run_shards("replay", HEADER, "cmd_case", "check_cmd", [render(specs, rp["on_connect"], chunks, log, raised)])
     print("events:", log, "raised:", raised, "codes:", bad.get(0, []))
     return 1 if bad else 0
